@@ -540,10 +540,11 @@ theorem DiscreteUniform_entropy_counterexample :
   simp only [Gen.DiscreteUniform.entropy, Spec.DiscreteUniform.entropy]
   c08_norm
   have h2 := Real.log_pos (show (1:ℝ) < 2 by norm_num)
-  have e1 : (((1:ℤ) - 0 : ℤ) : ℝ) = 1 := by norm_num
-  have e2 : (((1:ℤ) - 0 + 1 : ℤ) : ℝ) = 2 := by norm_num
-  rw [e1, e2, Real.log_one]
-  exact h2.ne
+  norm_num
+  first
+    | exact h2.ne
+    | exact h2.ne'
+    | (intro h; linarith [h2])
 
 /-- FULL STATEMENT (false): Gen.DiscreteUniform.kurtosis d = Spec.DiscreteUniform.kurtosis d.
     the code returns the constant −6/5 of the *continuous* uniform; the discrete one is −6(n²+1)/(5(n²−1)). -/
